@@ -13,6 +13,7 @@ import (
 	"io"
 	"net"
 	"strconv"
+	"strings"
 	"sync"
 	"testing"
 	"testing/synctest"
@@ -480,6 +481,12 @@ func wRun(t *testing.T, p wPlan) vk.Result {
 		}
 		if transparent > 1 {
 			return bad("%d transparent retries of one RPC", transparent)
+		}
+		if la := atts[len(atts)-1]; results[i].code != wantCode && len(atts) >= 2 && wantCode != codes.OK && (!la.inEnd || len(la.inData) < len(full)) &&
+			(results[i].code == codes.OK || results[i].code == codes.Unknown && strings.Contains(results[i].msg, "EOF")) {
+			v := bad("retry attempt %d ended with %v while the replay was still sending, but the application saw %v: the io.EOF of the replayed send replaced the RPC status", len(atts)-1, wantCode, results[i].code)
+			v.Sig = sigReplayEOF
+			return v.With("replay_send_eof_masks_status")
 		}
 		if results[i].code != wantCode {
 			return bad("reference model says %v", wantCode)
